@@ -234,19 +234,36 @@ class DataPath:
         return cls(*spec_resolved_parts)
 
     def to_part_specs(self):
+        """Part specs from which `from_part_specs` rebuilds an equivalent path: a primitive
+        for a part that a primitive would be coerced to, a full part spec otherwise."""
         parts = []
         for i in self.parts:
-            try:
-                part_spec = i.condition.callable.kwargs["value"]
-            except KeyError:
-                if isinstance(i, MapOrListValue):
-                    part_spec = i.list_condition.callable.kwargs["value"]
-                elif i.CONTAINER_TYPE is Container.MAP:
-                    part_spec = {"type": "map_value"}
-                elif i.CONTAINER_TYPE is Container.LIST:
-                    part_spec = {"type": "list_value"}
-                else:
-                    raise RuntimeError(f"Cannot convert part to a part spec: {i!r}.")
+            cnd = i.condition
+            if (
+                isinstance(i, MapValue)
+                and not i.label
+                and type(cnd) is cnds.Key
+                and cnd.callable.name == "equal_to"
+                and isinstance(cnd.callable.kwargs.get("value"), (str, float))
+            ):
+                part_spec = cnd.callable.kwargs["value"]
+            elif (
+                isinstance(i, MapOrListValue)
+                and not i.label
+                and cnd.is_null
+                and type(i.list_condition) is cnds.Index
+                and i.list_condition.callable.name == "equal_to"
+                and type(i.map_condition) is cnds.Key
+                and i.map_condition.callable.name == "equal_to"
+                and isinstance(i.list_condition.callable.kwargs.get("value"), int)
+                and type(i.list_condition.callable.kwargs["value"])
+                is type(i.map_condition.callable.kwargs.get("value"))
+                and i.list_condition.callable.kwargs["value"]
+                == i.map_condition.callable.kwargs["value"]
+            ):
+                part_spec = i.list_condition.callable.kwargs["value"]
+            else:
+                part_spec = i.to_spec()
             parts.append(part_spec)
         return parts
 
@@ -678,6 +695,25 @@ class ContainerValue:
             )
         else:
             return cls(condition=condition, label=label)
+
+    def to_spec(self):
+        """A part spec from which `ContainerValue.from_spec` rebuilds an equal part."""
+        TYPE_LOOKUP = {
+            MapValue: "map_value",
+            ListValue: "list_value",
+            MapOrListValue: "map_or_list_value",
+        }
+        spec = {"type": TYPE_LOOKUP[type(self)]}
+        if not self.condition.is_null:
+            spec["condition"] = self.condition.to_json_like()
+        if isinstance(self, MapOrListValue):
+            if not self.list_condition.is_null:
+                spec["list_condition"] = self.list_condition.to_json_like()
+            if not self.map_condition.is_null:
+                spec["map_condition"] = self.map_condition.to_json_like()
+        if self.label is not None:
+            spec["label"] = self.label
+        return spec
 
     def __truediv__(self, other):
         """Concatenating with other DictValue, ListValue or DataPath objects."""
